@@ -10,6 +10,7 @@ package main
 // on every vector (SPEC-ERROR = the machinery is wrong).
 
 import (
+	"runtime/debug"
 	"bytes"
 	"encoding/binary"
 	"encoding/hex"
@@ -1907,4 +1908,32 @@ func showGo(v reflect.Value) string {
 		return fmt.Sprintf("%+v", v.Interface())
 	}
 	return string(b)
+}
+
+// c07deep: the witness of open finding F-C07-1 (runs alone: it is expected to die): a message nested a few hundred
+// thousand levels deep into a recursive target
+type deepNode struct {
+	Next *deepNode `protobuf:"bytes,1,opt"`
+}
+
+func init() {
+	tools["c07deep"] = func([]string) {
+		debug.SetMaxStack(64 << 20)
+		const n = 400000
+		// innermost first: 0a 00, then each level wraps the one below
+		lens := make([]int, n)
+		size := 0
+		for i := n - 1; i >= 0; i-- {
+			lens[i] = size
+			size += 1 + len(uvarintBytes(uint64(size)))
+		}
+		b := make([]byte, 0, size)
+		for i := 0; i < n; i++ {
+			b = append(append(b, 0x0a), uvarintBytes(uint64(lens[i]))...)
+		}
+		var v deepNode
+		err := proto.Unmarshal(b, &v)
+		fmt.Println(len(b), err)
+		fmt.Println("C07DEEP-OK")
+	}
 }
